@@ -344,7 +344,7 @@ func runStage(b *build, prop string, st Stage, tier string, seed uint64, workers
 					}
 					sr.Violations = append(sr.Violations, replayRec{Property: prop, Harness: st.Harness, Config: st.Config, Tier: tier, Race: true, Seed: seed, Idx: died, BySeed: true,
 						Violation: violation{Property: prop, Oracle: "data-race", Key: raceKey(full), Detail: "race detector report in a serialised execution"}, RaceText: full})
-				case strings.Contains(tail, "out of memory") || strings.Contains(tail, "cannot allocate") || strings.Contains(tail, "signal: killed") || code == -1:
+				case resourceDeath(tail) || code == -1:
 					sr.Agg.NInconcl++
 					sr.Crashes = append(sr.Crashes, fmt.Sprintf("run %d: resource death (exit %d): %s", died, code, firstLine(tail)))
 				default:
@@ -654,6 +654,18 @@ func check(id, tier string) int {
 	return exit
 }
 
+// resourceDeath: the process died because the machine (or a limit) ran out of
+// memory, threads or address space - never a verdict about fq.
+func resourceDeath(text string) bool {
+	for _, m := range []string{"out of memory", "cannot allocate", "signal: killed", "pthread_create failed", "Resource temporarily unavailable",
+		"failed to create new OS thread", "newosproc", "limit on 8128 simultaneously alive goroutines", "ThreadSanitizer: failed to", "mmap: cannot", "errno=12", "errno=11"} {
+		if strings.Contains(text, m) {
+			return true
+		}
+	}
+	return false
+}
+
 func firstN(s string, n int) string {
 	if len(s) > n {
 		return s[:n] + "…"
@@ -727,6 +739,9 @@ func runReplay(b *build, path string) (int, string) {
 			}
 			return 3, string(out)
 		default:
+			if code == 97 || code == 98 || (code != 0 && resourceDeath(firstN(string(out), 8000))) {
+				return 3, string(out) // resource death of the replay: not a reproduction
+			}
 			if code != 0 && code != 96 {
 				return 1, string(out)
 			}
